@@ -2001,6 +2001,22 @@ int _GD_Tokenise(DIRFILE *restrict D, const struct parser_state *restrict p,
       }
     }
   }
+  /* the string ended while a numeric escape sequence was still being
+   * accumulated: the escape is complete, so finish it */
+  if (escaped_char && *ip == '\0' && acc_mode != ACC_MODE_NONE && n_acc > 0 &&
+      D->error == 0)
+  {
+    if (acc_mode == ACC_MODE_UTF8) {
+      if (!_GD_UTF8Encode(D, p->file, p->line, &op, accumulator))
+        escaped_char = 0;
+    } else if (accumulator == 0)
+      _GD_SetError(D, GD_E_FORMAT, GD_E_FORMAT_CHARACTER, p->file, p->line,
+          NULL);
+    else {
+      *(op++) = (char)accumulator;
+      escaped_char = 0;
+    }
+  }
   *op = '\0';
 
   if (quotated || escaped_char) {
